@@ -334,7 +334,8 @@ void vd_gram_random(vh_rng *r, int lang, int kind, double transcript_bias, vd_gr
         vfsa_init(&g->truth, n + 1, 0, n);
         for (i = 0; i < n; ++i) {
             const char *w = seq[i], *alt = vh_chance(r, 0.1) ? alt_spelling(r, lang, w) : NULL;
-            vh_sb_printf(&g->text, "%s%s", i ? (vh_chance(r, 0.1) ? "  " : " ") : "", alt ? alt : w);
+            if (vh_chance(r, 0.06)) { vh_sb_printf(&g->text, "%s%s", g->text.n ? " " : "", (lang == VD_EN && vh_chance(r, 0.4)) ? "[NOISE]" : "<sil>"); g->has_explicit_filler = 1; }   /* a filler named in the text: a dictionary word, but never part of the sentence */
+            vh_sb_printf(&g->text, "%s%s", g->text.n ? (vh_chance(r, 0.1) ? "  " : " ") : "", alt ? alt : w);
             if (alt) g->has_alt_explicit = 1;
             lab = vfsa_label(&g->truth, w);
             vfsa_add(&g->truth, i, i + 1, lab, 0);
@@ -392,10 +393,15 @@ void vd_gram_random(vh_rng *r, int lang, int kind, double transcript_bias, vd_gr
             ++na;
         }
         vfsa_init(&g->truth, n_state, start, final);
+        if (kind == VG_FSG_TEXT && vh_chance(r, 0.15)) {   /* arcs labelled with a filler word: they read as nothing */
+            int nf = vh_range(r, 1, 2);
+            for (k = 0; k < nf && na < 78; ++k) { arc[na].from = (int)vh_below(r, (uint32_t)n_state); arc[na].to = (int)vh_below(r, (uint32_t)n_state); arc[na].w = -2; arc[na].p = VH_PICK(r, ((double[]){ 1.0, 0.5, 0.1 })); arc[na].spell = strdup((lang == VD_EN && vh_chance(r, 0.5)) ? "[NOISE]" : "<sil>"); ++na; }
+            g->has_explicit_filler = 1;
+        }
         for (k = 0; k < na; ++k) vfsa_add(&g->truth, arc[k].from, arc[k].to, arc[k].w < 0 ? VF_EPS : vfsa_label(&g->truth, V[arc[k].w]), 0);
         if (kind == VG_FSG_TEXT) {
             vh_sb_printf(&g->text, "FSG_BEGIN rnd\nNUM_STATES %d\nSTART_STATE %d\nFINAL_STATE %d\n", n_state, start, final);
-            for (k = 0; k < na; ++k) vh_sb_printf(&g->text, "TRANSITION %d %d %g %s\n", arc[k].from, arc[k].to, arc[k].p, arc[k].w < 0 ? "" : arc[k].spell ? arc[k].spell : V[arc[k].w]);
+            for (k = 0; k < na; ++k) vh_sb_printf(&g->text, "TRANSITION %d %d %g %s\n", arc[k].from, arc[k].to, arc[k].p, arc[k].w == -1 ? "" : arc[k].spell ? arc[k].spell : V[arc[k].w]);
             vh_sb_printf(&g->text, "FSG_END\n");
         } else {
             int s;
